@@ -14,7 +14,9 @@
 #include <GeographicLib/Geocentric.hpp>
 #include <GeographicLib/Constants.hpp>
 #include <fstream>
+#include <sstream>
 #include <map>
+#include <set>
 #include <memory>
 #include <functional>
 #include <sys/stat.h>
@@ -46,6 +48,15 @@ static long long U(LD resid, LD scale) {
   return (long long) q;
 }
 static LD norm3(LD a, LD b, LD c) { return sqrtl(a * a + b * b + c * c); }
+
+static unsigned caps_of(int req) {       // req bits: 1 GRAVITY 2 DISTURBANCE 4 DISTURBING_POTENTIAL 8 SPHERICAL_ANOMALY 16 GEOID_HEIGHT; 32 ALL, 33 NONE
+  unsigned caps = 0;
+  if (req & 1) caps |= GravityModel::GRAVITY; if (req & 2) caps |= GravityModel::DISTURBANCE; if (req & 4) caps |= GravityModel::DISTURBING_POTENTIAL;
+  if (req & 8) caps |= GravityModel::SPHERICAL_ANOMALY; if (req & 16) caps |= GravityModel::GEOID_HEIGHT;
+  if (req == 32) caps = GravityModel::ALL; if (req == 33) caps = GravityModel::NONE;
+  return caps;
+}
+static const double FS[4] = {12345.678, -23456.789, 34567.891, -45678.912};    // finite sentinels: an output that is not written stays finite
 
 // -------------------------------------------------------------------------------------------------
 // coefficient sets in the documented packed ("column major") layout
@@ -125,15 +136,27 @@ template<class F> static DefOut defsum(bool full, int nmx, int mmx, LD a, LD x, 
 struct Harm {
   int L = 1; bool full = true; double a = 1;
   CS cs[3]; int nmx[3] = {-1, -1, -1}, mmx[3] = {-1, -1, -1}; double tau[3] = {1, 0, 0};
-  bool fullctor = false;
+  // constructor family: ct 0 = general form (C, S, N, nmx, mmx, ...), 1 = simple form (C, S, N, ...: nmx = mmx = N for every set);
+  // defnorm: the normalisation argument is left out (documented default FULL); asg: default-constructed object, then copy-assigned
+  int ct = 0; bool defnorm = false, asg = false;
   unique_ptr<SphericalHarmonic> h0; unique_ptr<SphericalHarmonic1> h1; unique_ptr<SphericalHarmonic2> h2;
+  template<class T> static T* fin(bool asg, const T& obj) { if (!asg) return new T(obj); T* p = new T(); *p = obj; return p; }
   void build() {
     unsigned nm = full ? SphericalHarmonic::FULL : SphericalHarmonic::SCHMIDT;
-    if (L == 1) h0.reset(fullctor ? new SphericalHarmonic(cs[0].C, cs[0].S, cs[0].N, a, nm)
-                                  : new SphericalHarmonic(cs[0].C, cs[0].S, cs[0].N, nmx[0], mmx[0], a, nm));
-    else if (L == 2) h1.reset(new SphericalHarmonic1(cs[0].C, cs[0].S, cs[0].N, nmx[0], mmx[0], cs[1].C, cs[1].S, cs[1].N, nmx[1], mmx[1], a, nm));
-    else h2.reset(new SphericalHarmonic2(cs[0].C, cs[0].S, cs[0].N, nmx[0], mmx[0], cs[1].C, cs[1].S, cs[1].N, nmx[1], mmx[1],
-                                         cs[2].C, cs[2].S, cs[2].N, nmx[2], mmx[2], a, nm));
+    const CS &A = cs[0], &B = cs[1], &D = cs[2];
+    if (L == 1) {
+      if (ct == 1) h0.reset(defnorm ? fin(asg, SphericalHarmonic(A.C, A.S, A.N, a)) : fin(asg, SphericalHarmonic(A.C, A.S, A.N, a, nm)));
+      else h0.reset(defnorm ? fin(asg, SphericalHarmonic(A.C, A.S, A.N, nmx[0], mmx[0], a)) : fin(asg, SphericalHarmonic(A.C, A.S, A.N, nmx[0], mmx[0], a, nm)));
+    } else if (L == 2) {
+      if (ct == 1) h1.reset(defnorm ? fin(asg, SphericalHarmonic1(A.C, A.S, A.N, B.C, B.S, B.N, a)) : fin(asg, SphericalHarmonic1(A.C, A.S, A.N, B.C, B.S, B.N, a, nm)));
+      else h1.reset(defnorm ? fin(asg, SphericalHarmonic1(A.C, A.S, A.N, nmx[0], mmx[0], B.C, B.S, B.N, nmx[1], mmx[1], a))
+                            : fin(asg, SphericalHarmonic1(A.C, A.S, A.N, nmx[0], mmx[0], B.C, B.S, B.N, nmx[1], mmx[1], a, nm)));
+    } else {
+      if (ct == 1) h2.reset(defnorm ? fin(asg, SphericalHarmonic2(A.C, A.S, A.N, B.C, B.S, B.N, D.C, D.S, D.N, a))
+                                    : fin(asg, SphericalHarmonic2(A.C, A.S, A.N, B.C, B.S, B.N, D.C, D.S, D.N, a, nm)));
+      else h2.reset(defnorm ? fin(asg, SphericalHarmonic2(A.C, A.S, A.N, nmx[0], mmx[0], B.C, B.S, B.N, nmx[1], mmx[1], D.C, D.S, D.N, nmx[2], mmx[2], a))
+                            : fin(asg, SphericalHarmonic2(A.C, A.S, A.N, nmx[0], mmx[0], B.C, B.S, B.N, nmx[1], mmx[1], D.C, D.S, D.N, nmx[2], mmx[2], a, nm)));
+    }
   }
   double val(double x, double y, double z) const {
     return L == 1 ? (*h0)(x, y, z) : L == 2 ? (*h1)(tau[1], x, y, z) : (*h2)(tau[1], tau[2], x, y, z);
@@ -143,6 +166,10 @@ struct Harm {
   }
   CircularEngine circle(double p, double z, bool gradp) const {
     return L == 1 ? h0->Circle(p, z, gradp) : L == 2 ? h1->Circle(tau[1], p, z, gradp) : h2->Circle(tau[1], tau[2], p, z, gradp);
+  }
+  const SphericalEngine::coeff& coeffs(int l) const {
+    return L == 1 ? h0->Coefficients() : L == 2 ? (l == 0 ? h1->Coefficients() : h1->Coefficients1())
+                  : (l == 0 ? h2->Coefficients() : l == 1 ? h2->Coefficients1() : h2->Coefficients2());
   }
   Term coef(int n, int m) const {
     Term t; t.C = 0; t.S = 0; LD ac = 0, as = 0;
@@ -191,38 +218,51 @@ static void random_point(vt::Rng& g, double a, int cls, double& x, double& y, do
 
 // -------------------------------------------------------------------------------------------------
 // law record "sh": a random harmonic object at a random point
-static void make_random_harm(vt::Rng& g, Harm& H, int maxdeg) {
+static string make_random_harm(vt::Rng& g, Harm& H, int maxdeg) {
   H.L = (int) g.range(1, 3); H.full = g.coin();
   H.a = g.coin() ? 1.0 : (g.coin() ? 6378137.0 : pow(2.0, (double) g.range(-3, 8)));
   int N = (int) g.range(0, maxdeg); if (g.range(0, 5) == 0) N = (int) g.range(0, 4);
-  H.fullctor = H.L == 1 && g.range(0, 3) == 0;
+  // class "full sets": every set is a full triangle of its own degree N_l <= N, so that the simple constructor form applies;
+  // it is then built with either form.  Otherwise: sub-triangles / truncations, general form only.
+  bool fullsets = g.range(0, 2) == 0;
+  H.ct = fullsets && g.range(0, 2) != 0 ? 1 : 0;
+  H.defnorm = H.full && g.range(0, 2) == 0;
+  H.asg = g.range(0, 3) == 0;
   for (int l = 0; l < H.L; ++l) {
     int Nl = l == 0 ? N : (int) g.range(-1, H.cs[0].N);
-    int nx = H.fullctor ? Nl : (int) g.range(Nl < 0 ? -1 : 0, Nl);
+    int nx = fullsets ? Nl : (int) g.range(Nl < 0 ? -1 : 0, Nl);
     if (l == 0 && g.coin()) nx = Nl;
     if (l > 0) nx = min(nx, H.nmx[0]);
-    int mx = H.fullctor ? Nl : (nx < 0 ? -1 : (int) g.range(0, nx));
+    int mx = fullsets ? Nl : (nx < 0 ? -1 : (int) g.range(0, nx));
     if (l == 0 && g.coin()) mx = nx;
     if (l > 0) mx = min(mx, H.mmx[0]);
     if (mx < 0 || nx < 0) { nx = mx = -1; }
     // storage: full triangle, or only the columns that are needed
     H.cs[l].alloc(Nl, (Nl >= 0 && g.coin()) ? max(mx, 0) : Nl);
-    if (H.fullctor) H.cs[l].alloc(Nl, Nl);
+    if (fullsets) H.cs[l].alloc(Nl, Nl);
     fill_random(g, H.cs[l], (int) g.range(0, 3));
     H.nmx[l] = nx; H.mmx[l] = mx;
     H.tau[l] = l == 0 ? 1.0 : (g.range(0, 4) == 0 ? (double) g.range(-2, 2) : g.uni(-2, 2));
   }
-  H.build();
+  return guarded([&] { H.build(); });
 }
 
 static void rec_sh(vt::Rng& g, int maxdeg) {
-  Harm H; make_random_harm(g, H, maxdeg);
+  Harm H; string built = make_random_harm(g, H, maxdeg);
   int cls = (int) g.range(0, 9); if (cls > 5) cls = 0;
+  if (built != "ok") {
+    Rec r; r.str("e", "sh").str("out", built).i("L", H.L).b("full", H.full).i("n", H.nmx[0]).i("m", H.mmx[0]).i("ct", H.ct).b("dn", H.defnorm).b("asg", H.asg).str("kf", "none");
+    r.emit(); return;
+  }
   double x, y, z; random_point(g, H.a, cls, x, y, z);
   DefOut d = H.def(x, y, z);
   double gx = vt::sentinel(1), gy = vt::sentinel(2), gz = vt::sentinel(3);
   double v0 = H.val(x, y, z), v1 = H.grad(x, y, z, gx, gy, gz);
-  Rec r; r.str("e", "sh").i("L", H.L).b("full", H.full).i("n", H.nmx[0]).i("m", H.mmx[0]).i("cls", cls).b("fc", H.fullctor);
+  Rec r; r.str("e", "sh").i("L", H.L).b("full", H.full).i("n", H.nmx[0]).i("m", H.mmx[0]).i("cls", cls).str("out", "ok").i("ct", H.ct).b("dn", H.defnorm).b("asg", H.asg);
+  { vector<long long> in, ob;       // Coefficients(), Coefficients1(), Coefficients2(): layout degree and the limits of every set as given to the constructor
+    for (int l = 0; l < H.L; ++l) { const SphericalEngine::coeff& c = H.coeffs(l); in.push_back(H.cs[l].N); in.push_back(H.nmx[l]); in.push_back(H.mmx[l]);
+      ob.push_back(c.N()); ob.push_back(c.nmx()); ob.push_back(c.mmx()); }
+    r.li("cin", in).li("cob", ob); }
   r.i("dv", U(fabsl((LD) v1 - d.V), d.S0)).i("dvv", U(fabsl((LD) v0 - (LD) v1), d.S0));
   r.i("dg", U(norm3((LD) gx - d.g[0], (LD) gy - d.g[1], (LD) gz - d.g[2]), d.S1));
   // circle of latitude through the point, same cos/sin of longitude as used by the direct evaluation
@@ -270,16 +310,43 @@ static void put_set(ofstream& f, const CS& cs) {
 }
 static string num(double v) { char b[64]; snprintf(b, 64, "%.17g", v); return b; }
 
+// An optional keyword is left out of the metadata file when its name is in `omit`; the sampler only puts a keyword there when the
+// value equals the default the documentation gives for it (the trace specification re-checks that guard from the logged values).
+// A metadata text "decorated" with everything the format sections allow without changing the meaning: comment lines, trailing
+// comments, blank lines, tabs / extra blanks between KEY and VALUE and around them, keywords that the classes do not know
+static string decorate(const string& text) {
+  std::istringstream is(text); string line, out; int k = 0;
+  while (getline(is, line)) {
+    if (k++ == 0 || line.empty() || line[0] == '#') { out += line + "\n"; continue; }         // the signature line stays as it is
+    size_t sp = line.find(' ');
+    out += "  " + line.substr(0, sp) + " \t  " + (sp == string::npos ? string() : line.substr(sp + 1)) + "  \t# " + line.substr(0, sp) + " noted\n";
+    if (k % 3 == 0) out += "\n   \t\n   # an interleaved comment line\nPublisher" + to_string(k) + "  nobody in particular # ignored keyword\nURL http://example.invalid/x#y\n";
+  }
+  return out;
+}
+static string omit_json(const std::set<string>& omit) { string o = "["; for (auto& k : omit) { if (o.size() > 1) o += ","; o += "\"" + k + "\""; } return o + "]"; }
 struct MagFile {
   string name, id = "SYNTHMAG"; bool full = false; double a = 6371200.0, t0 = 2000, dt0 = 5, tmin = 1990, tmax = 2030, hmin = -1000, hmax = 600000;
   int nm = 1, nc = 0; vector<CS> sets;     // nm + 1 + nc sets
+  std::set<string> omit; bool deco = false;
   void write() const {
-    ofstream m((g_dir + "/" + name + ".wmm").c_str());
-    m << "WMMF-2\n# synthetic magnetic model written by drv_harm\nName " << name << "\nDescription synthetic\nReleaseDate 2026-01-01\n"
-      << "Radius " << num(a) << "\nNumModels " << nm << "\nNumConstants " << nc << "\nEpoch " << num(t0) << "\nDeltaEpoch " << num(dt0)
-      << "\nMinTime " << num(tmin) << "\nMaxTime " << num(tmax) << "\nMinHeight " << num(hmin) << "\nMaxHeight " << num(hmax)
-      << "\nNormalization " << (full ? "full" : "schmidt") << "\nType linear\nByteOrder little\nID " << id << "\n";
-    m.close();
+    std::ostringstream m;
+    auto opt = [&](const char* k) { return omit.count(k) == 0; };
+    m << "WMMF-2\n# synthetic magnetic model written by drv_harm\n";
+    if (opt("Name")) m << "Name synth-" << name << "\n";
+    if (opt("Description")) m << "Description synthetic\n";
+    if (opt("ReleaseDate")) m << "ReleaseDate 2026-01-01\n";
+    m << "Radius " << num(a) << "\n";
+    if (opt("NumModels")) m << "NumModels " << nm << "\n";
+    if (opt("NumConstants")) m << "NumConstants " << nc << "\n";
+    m << "Epoch " << num(t0) << "\n";
+    if (opt("DeltaEpoch")) m << "DeltaEpoch " << num(dt0) << "\n";
+    m << "MinTime " << num(tmin) << "\nMaxTime " << num(tmax) << "\nMinHeight " << num(hmin) << "\nMaxHeight " << num(hmax) << "\n";
+    if (opt("Normalization")) m << "Normalization " << (full ? "full" : "schmidt") << "\n";
+    if (opt("Type")) m << "Type linear\n";
+    if (opt("ByteOrder")) m << "ByteOrder little\n";
+    m << "ID " << id << "\n";
+    { ofstream f((g_dir + "/" + name + ".wmm").c_str()); f << (deco ? decorate(m.str()) : m.str()); }
     ofstream c((g_dir + "/" + name + ".wmm.cof").c_str(), ios::binary);
     c.write(id.data(), 8);
     for (const CS& s : sets) put_set(c, s);
@@ -291,20 +358,33 @@ struct GravFile {
   double amodel = 6378136.3, gmmodel = 3986004.415e8, omega = 7292115e-11, aref = 6378137, gmref = 3986004.418e8, f = 1 / 298.257223563, j2 = 0,
          zeta0 = 0, corrmult = 1;
   CS grav, corr;
+  std::set<string> omit; bool deco = false;
   void write() const {
-    ofstream m((g_dir + "/" + name + ".egm").c_str());
-    m << "EGMF-1\n# synthetic gravity model written by drv_harm\nName " << name << "\nDescription synthetic\nReleaseDate 2026-01-01\n"
-      << "ModelRadius " << num(amodel) << "\nModelMass " << num(gmmodel) << "\nAngularVelocity " << num(omega)
+    std::ostringstream m;
+    auto opt = [&](const char* k) { return omit.count(k) == 0; };
+    m << "EGMF-1\n# synthetic gravity model written by drv_harm\n";
+    if (opt("Name")) m << "Name synth-" << name << "\n";
+    if (opt("Description")) m << "Description synthetic\n";
+    if (opt("ReleaseDate")) m << "ReleaseDate 2026-01-01\n";
+    m << "ModelRadius " << num(amodel) << "\nModelMass " << num(gmmodel) << "\nAngularVelocity " << num(omega)
       << "\nReferenceRadius " << num(aref) << "\nReferenceMass " << num(gmref) << "\n";
     if (usej2) m << "DynamicalFormFactor " << num(j2) << "\n"; else m << "Flattening " << num(f) << "\n";
-    m << "HeightOffset " << num(zeta0) << "\nCorrectionMultiplier " << num(corrmult) << "\nNormalization " << (full ? "full" : "schmidt")
-      << "\nByteOrder little\nID " << id << "\n";
-    m.close();
+    if (opt("HeightOffset")) m << "HeightOffset " << num(zeta0) << "\n";
+    if (opt("CorrectionMultiplier")) m << "CorrectionMultiplier " << num(corrmult) << "\n";
+    if (opt("Normalization")) m << "Normalization " << (full ? "full" : "schmidt") << "\n";
+    if (opt("ByteOrder")) m << "ByteOrder little\n";
+    m << "ID " << id << "\n";
+    { ofstream f((g_dir + "/" + name + ".egm").c_str()); f << (deco ? decorate(m.str()) : m.str()); }
     ofstream c((g_dir + "/" + name + ".egm.cof").c_str(), ios::binary);
     c.write(id.data(), 8);
     put_set(c, grav); put_set(c, corr);
   }
 };
+// each keyword that may be left out (value = documented default, as claimed by the sampler) is left out with probability 1/2, or none at all
+static void draw_omit(vt::Rng& g, std::set<string>& omit, std::initializer_list<pair<const char*, bool>> elig) {
+  bool any = g.range(0, 2) != 0;
+  for (auto& e : elig) { bool c = g.coin(); if (any && e.second && c) omit.insert(e.first); }
+}
 
 // textbook geodetic -> geocentric and the east/north/up frame, in long double (degrees in)
 static void sincosdl(LD deg, LD& s, LD& c) {
@@ -336,22 +416,24 @@ static void eff_limits(int Nmax, int Mmax, int& nl, int& ml) {       // construc
   if (Nmax >= 0 || Mmax >= 0) { if (Nmax >= 0 && Mmax < 0) Mmax = Nmax; if (Nmax >= 0) nl = Nmax; if (Mmax >= 0) ml = Mmax; }
 }
 struct MagCoef {               // coefficient combination at a given time, per documentation of the file format
-  const MagFile* F; int seg; bool interp; LD w, tau; int nl, ml; bool rate;
+  const MagFile* F; int seg; bool interp; LD w, tau, tabs; int nl, ml; bool rate;
   Term operator()(int n, int m) const {
     auto get = [&](int i, bool sine) -> LD { const CS& c = F->sets[i]; if (n > min(c.N, nl) || m > min(c.M, ml)) return 0.0L; return sine ? c.s(n, m) : c.c(n, m); };
     Term t; LD v[2], a[2];
     for (int k = 0; k < 2; ++k) {
       LD g0 = get(seg, k), g1 = get(seg + 1, k), gc = F->nc ? get(F->nm + 1, k) : 0.0L;
       if (rate) { v[k] = interp ? (g1 - g0) / F->dt0 : g1; a[k] = interp ? (fabsl(g1) + fabsl(g0)) / F->dt0 : fabsl(g1); }
-      else if (interp) { v[k] = g0 + w * (g1 - g0) + gc; a[k] = fabsl(g0) * (1 + fabsl(w)) + fabsl(w * g1) + fabsl(gc); }
-      else { v[k] = g0 + tau * g1 + gc; a[k] = fabsl(g0) + fabsl(tau * g1) + fabsl(gc); }
+      else if (interp) { v[k] = g0 + w * (g1 - g0) + gc; a[k] = fabsl(g0) * (1 + fabsl(w)) + fabsl(w * g1) + fabsl(gc) + tabs * (fabsl(g1) + fabsl(g0)) / F->dt0; }
+      else { v[k] = g0 + tau * g1 + gc; a[k] = fabsl(g0) + fabsl(tau * g1) + fabsl(gc) + tabs * fabsl(g1); }
+      // conditioning in the time argument: the offset t - Epoch - i DeltaEpoch is formed in double precision (a few ulps of |t - Epoch|),
+      // so the magnitude bound of a coefficient carries |t - Epoch| x |its rate of change| (last term above)
     }
     t.C = v[0]; t.S = v[1]; t.mag = hypotl(a[0], a[1]); return t;
   }
 };
 static void mag_oracle(const MagFile& F, int Nmax, int Mmax, LD t, int seg, LD X, LD Y, LD Z, DefOut& B, DefOut& Bt) {
   MagCoef mc; mc.F = &F; eff_limits(Nmax, Mmax, mc.nl, mc.ml);
-  mc.seg = seg; mc.interp = seg + 1 < F.nm; mc.tau = t - (LD) F.t0 - seg * (LD) F.dt0; mc.w = mc.tau / F.dt0;
+  mc.seg = seg; mc.interp = seg + 1 < F.nm; mc.tau = t - (LD) F.t0 - seg * (LD) F.dt0; mc.w = mc.tau / F.dt0; mc.tabs = fabsl(t - (LD) F.t0);
   int nx = -1, mx = -1; for (const CS& c : F.sets) { nx = max(nx, min(c.N, mc.nl)); mx = max(mx, min(c.M, mc.ml)); }
   mc.rate = false; B = defsum(F.full, nx, mx, (LD) F.a, X, Y, Z, mc);
   mc.rate = true; Bt = defsum(F.full, nx, mx, (LD) F.a, X, Y, Z, mc);
@@ -360,7 +442,7 @@ static void mag_oracle(const MagFile& F, int Nmax, int Mmax, LD t, int seg, LD X
 }
 
 static void rec_mag(vt::Rng& g, int maxdeg, int npts) {
-  MagFile F; F.name = "m" + to_string(++g_serial % 8);
+  MagFile F; F.name = "m" + to_string(++g_serial % 8); if (getenv("VKEEP")) F.name = "mk" + to_string(g_serial);   // debugging aid: keep every synthetic file
   F.nm = (int) g.range(1, 4); F.nc = (int) g.range(0, 1); F.full = g.range(0, 3) == 0;
   F.a = g.coin() ? 6371200.0 : g.uni(1e6, 1e7);
   F.t0 = g.coin() ? 2000.0 + 5 * (double) g.range(-20, 5) : g.uni(1900, 2025); F.dt0 = g.coin() ? 5.0 : g.coin() ? 1.0 : g.uni(0.5, 6);
@@ -372,16 +454,29 @@ static void rec_mag(vt::Rng& g, int maxdeg, int npts) {
     if (N >= 0) { c.setc(0, 0, 0.0); for (auto& v : c.C) v *= (i == F.nm ? 50.0 : 30000.0); for (auto& v : c.S) v *= (i == F.nm ? 50.0 : 30000.0); }
     F.sets.push_back(c);
   }
+  draw_omit(g, F.omit, {{"Normalization", !F.full}, {"NumModels", F.nm == 1}, {"NumConstants", F.nc == 0}, {"DeltaEpoch", F.nm == 1 || F.dt0 == 1.0},
+                        {"Type", true}, {"ByteOrder", true}, {"Name", true}, {"Description", true}, {"ReleaseDate", true}});
+  F.deco = g.range(0, 2) == 0;
   F.write();
+  // truncation request: none, degree (and order), the order only (Nmax < 0 <= Mmax), other negative values (= not given), Mmax > Nmax (exception)
   int Nmax = -1, Mmax = -1;
-  if (g.range(0, 2) == 0) { Nmax = (int) g.range(0, maxdeg); Mmax = g.coin() ? -1 : (int) g.range(0, Nmax); if (g.range(0, 5) == 0) { Mmax = (int) g.range(0, maxdeg); Nmax = -1; } }
+  { int tk = (int) g.range(0, 11);
+    if (tk < 3) { Nmax = (int) g.range(0, maxdeg); Mmax = g.coin() ? -1 : (int) g.range(0, Nmax); }
+    else if (tk == 3) { Mmax = (int) g.range(0, maxdeg); Nmax = g.coin() ? -1 : -(int) g.range(2, 9); }
+    else if (tk == 4) { Nmax = (int) g.range(0, maxdeg); Mmax = Nmax + (int) g.range(1, 3); }
+    else if (tk == 5) { Nmax = -(int) g.range(1, 9); Mmax = -(int) g.range(1, 9); } }
   double ae = Constants::WGS84_a(), fe = Constants::WGS84_f();
   int ek = (int) g.range(0, 3); if (ek == 1) { ae = F.a; fe = 0; } if (ek == 2) { ae = g.uni(6e6, 7e6); fe = g.uni(-0.01, 0.01); }
   Geocentric earth(ae, fe);
-  unique_ptr<MagneticModel> mm; string res = guarded([&] { mm.reset(new MagneticModel(F.name, g_dir, earth, Nmax, Mmax)); });
+  // constructor argument lists: the full one, or with the trailing arguments that have their documented default value left out
+  // (Mmax = -1, Nmax = -1, earth = Geocentric::WGS84())
+  int alist = (int) g.range(0, 1) == 0 ? 5 : (Mmax != -1 ? 5 : Nmax != -1 ? 4 : ek != 0 ? 3 : 2);
+  unique_ptr<MagneticModel> mm; string res = guarded([&] {
+    mm.reset(alist == 5 ? new MagneticModel(F.name, g_dir, earth, Nmax, Mmax) : alist == 4 ? new MagneticModel(F.name, g_dir, earth, Nmax)
+             : alist == 3 ? new MagneticModel(F.name, g_dir, earth) : new MagneticModel(F.name, g_dir)); });
   vector<long long> Ns, Ms; for (const CS& c : F.sets) { Ns.push_back(c.N); Ms.push_back(c.M); }
   if (res != "ok") { Rec r; r.str("e", "magr").str("out", res).li("Ns", Ns).li("Ms", Ms).i("Nmax", Nmax).i("Mmax", Mmax).str("kf", "none"); r.emit(); return; }
-  bool meta = mm->Description() == "synthetic" && mm->DateTime() == "2026-01-01" && mm->MagneticModelName() == F.name && mm->MinTime() == F.tmin
+  bool meta = mm->MinTime() == F.tmin
     && mm->MaxTime() == F.tmax && mm->MinHeight() == F.hmin && mm->MaxHeight() == F.hmax && mm->EquatorialRadius() == ae && mm->Flattening() == fe
     && mm->MagneticModelDirectory() == g_dir && mm->MagneticFile() == g_dir + "/" + F.name + ".wmm";
   for (int ip = 0; ip < npts; ++ip) {
@@ -391,7 +486,8 @@ static void rec_mag(vt::Rng& g, int maxdeg, int npts) {
     LD ws = ((LD) t - (LD) F.t0) / (LD) F.dt0; int seg = max(min((int) floorl(ws), F.nm - 1), 0);
     int rw = (int) roundl(ws); bool knot = fabsl(ws - roundl(ws)) < 1e-9L && rw >= 1 && rw <= F.nm - 1; int seg2 = seg == rw ? rw - 1 : rw;
     Rec r; r.str("e", "magr").str("out", "ok").i("nm", F.nm).i("nc", F.nc).b("full", F.full).li("Ns", Ns).li("Ms", Ms).i("Nmax", Nmax).i("Mmax", Mmax)
-      .i("deg", mm->Degree()).i("ord", mm->Order()).b("meta", meta).b("knot", knot).i("seg", seg).b("pole", fabs(lat) == 90);
+      .i("deg", mm->Degree()).i("ord", mm->Order()).b("meta", meta).b("knot", knot).i("seg", seg).b("pole", fabs(lat) == 90)
+      .raw("omit", omit_json(F.omit)).b("deco", F.deco).b("dt1", F.dt0 == 1.0).str("desc", mm->Description()).str("date", mm->DateTime()).str("name", mm->MagneticModelName()).str("fname", F.name);
     // geocentric: library point, oracle at the same doubles
     double X, Y, Z; earth.Forward(lat, lon, h, X, Y, Z);
     double BX, BY, BZ, BXt, BYt, BZt; mm->FieldGeocentric(t, X, Y, Z, BX, BY, BZ, BXt, BYt, BZt);
@@ -470,20 +566,35 @@ static void rec_grv(vt::Rng& g, int maxdeg, int npts) {
   int Nc = (int) g.range(-1, max(2, maxdeg / 2)), Mc = Nc < 0 ? -1 : (g.coin() ? Nc : (int) g.range(0, Nc));
   F.corr.alloc(Nc, Mc); fill_random(g, F.corr, 1);
   F.zeta0 = g.coin() ? 0.0 : g.uni(-1, 1); F.corrmult = g.coin() ? 1.0 : 0.01;
+  draw_omit(g, F.omit, {{"Normalization", F.full}, {"HeightOffset", F.zeta0 == 0}, {"CorrectionMultiplier", F.corrmult == 1},
+                        {"ByteOrder", true}, {"Name", true}, {"Description", true}, {"ReleaseDate", true}});
+  F.deco = g.range(0, 2) == 0;
   F.write();
+  // truncation request: none, degree (and order), the order only (Nmax < 0 <= Mmax), other negative values (= not given), Mmax > Nmax (exception)
   int Nmax = -1, Mmax = -1;
-  if (g.range(0, 3) == 0) { Nmax = (int) g.range(0, maxdeg); Mmax = g.coin() ? -1 : (int) g.range(0, Nmax); }
-  unique_ptr<GravityModel> gm; string res = guarded([&] { gm.reset(new GravityModel(F.name, g_dir, Nmax, Mmax)); });
+  { int tk = (int) g.range(0, 11);
+    if (tk < 3) { Nmax = (int) g.range(0, maxdeg); Mmax = g.coin() ? -1 : (int) g.range(0, Nmax); }
+    else if (tk == 3) { Mmax = (int) g.range(0, maxdeg); Nmax = g.coin() ? -1 : -(int) g.range(2, 9); }
+    else if (tk == 4) { Nmax = (int) g.range(0, maxdeg); Mmax = Nmax + (int) g.range(1, 3); }
+    else if (tk == 5) { Nmax = -(int) g.range(1, 9); Mmax = -(int) g.range(1, 9); } }
+  int alist = (int) g.range(0, 1) == 0 ? 4 : (Mmax != -1 ? 4 : Nmax != -1 ? 3 : 2);      // trailing default arguments left out
+  unique_ptr<GravityModel> gm; string res = guarded([&] {
+    gm.reset(alist == 4 ? new GravityModel(F.name, g_dir, Nmax, Mmax) : alist == 3 ? new GravityModel(F.name, g_dir, Nmax) : new GravityModel(F.name, g_dir)); });
   int nl, ml; eff_limits(Nmax, Mmax, nl, ml);
   int nx = min(N, nl), mx = min(M, ml), ncx = min(Nc, nl), mcx = min(Mc, ml);
   if (res != "ok") { Rec r; r.str("e", "grvV").str("out", res).i("N", N).i("M", M).i("Nmax", Nmax).i("Mmax", Mmax).str("kf", "none"); r.emit(); return; }
   const NormalGravity& ref = gm->ReferenceEllipsoid();
-  bool meta = gm->Description() == "synthetic" && gm->DateTime() == "2026-01-01" && gm->GravityModelName() == F.name && gm->MassConstant() == F.gmmodel
+  bool meta = gm->MassConstant() == F.gmmodel
     && gm->ReferenceMassConstant() == F.gmref && gm->AngularVelocity() == F.omega && gm->EquatorialRadius() == F.aref
     && (F.usej2 ? ref.DynamicalFormFactor() == F.j2 : gm->Flattening() == F.f) && gm->GravityFile() == g_dir + "/" + F.name + ".egm";
   LD fl = gm->Flattening(), ka = (LD) F.gmmodel / F.amodel, kdiff = (LD) F.gmmodel - (LD) F.gmref;
   auto cf = [&](int n, int m) { Term t; t.C = (n == 0 && m == 0) ? 1.0L : (LD) F.grav.c(n, m); t.S = F.grav.s(n, m); t.mag = hypotl(t.C, t.S); return t; };
   auto cfnz = [&](int n, int m) { Term t = cf(n, m); if (n == 0) { t.C = 0; t.mag = 0; } return t; };
+  // the disturbing series: model coefficients minus the zonal coefficients of the reference ellipsoid (J_n of the library's NormalGravity,
+  // converted to the model's GM, radius and normalisation), even degrees 2 .. model degree
+  vector<LD> znorm(nx + 1, 0.0L);
+  for (int n = 2; n <= nx; n += 2) znorm[n] = -(LD) ref.DynamicalFormFactor(n) * ((LD) F.gmref / (LD) F.gmmodel) * powl((LD) F.aref / (LD) F.amodel, n) / (F.full ? sqrtl(2.0L * n + 1) : 1.0L);
+  auto cfT = [&](int n, int m) { Term t = cfnz(n, m); if (m == 0 && n <= nx) { t.C -= znorm[n]; t.mag = hypotl(fabsl((LD) F.grav.c(n, 0)) + fabsl(znorm[n]), 0.0L); if (n == 0) t.mag = 0; } return t; };
   auto cc = [&](int n, int m) { Term t; t.C = (LD) F.corr.c(n, m) + ((n == 0 && m == 0) ? (LD) F.zeta0 / F.corrmult : 0.0L); t.S = F.corr.s(n, m);
                                 t.mag = hypotl(fabsl((LD) F.corr.c(n, m)) + ((n == 0 && m == 0) ? fabsl((LD) F.zeta0 / F.corrmult) : 0.0L), fabsl(t.S)); return t; };
   const char* fcls = F.f == 0 ? "sphere" : F.f < 0 ? "prolate" : "oblate";
@@ -493,12 +604,14 @@ static void rec_grv(vt::Rng& g, int maxdeg, int npts) {
   const char* lsph = F.f == 0 ? "grv-sphere-zonal-nan" : nullptr;
   string kfT = join({lsph, !F.full ? "grv-schmidt-zonal" : nullptr, nx < 20 ? "grv-lowdeg-zonal" : nullptr});
   string kfN = join({lsph});
+  string kfZ = join({lsph, !F.full ? "grv-schmidt-zonal" : nullptr});
   string kfG = join({lsph, F.gmmodel != F.gmref ? "grv-tgrad-gm" : nullptr});
   for (int ip = 0; ip < npts; ++ip) {
     double lat = g.range(0, 7) == 0 ? (g.coin() ? 90.0 : -90.0) : asin(g.uni(-1, 1)) * 180 / (double) PI_L, lon = g.uni(-360, 360);
     double h = g.range(0, 2) == 0 ? 0.0 : g.uni(-5e3, 1e6);
     auto head = [&](Rec& r, const char* e) { r.str("e", e).b("full", F.full).str("fcls", fcls).b("usej2", F.usej2).b("near", nearnormal).i("nx", nx).b("h0", h == 0).b("gmeq", F.gmmodel == F.gmref); };
     Rec r; head(r, "grvV"); r.str("out", "ok").i("N", N).i("M", M).i("Nc", Nc).i("Mc", Mc).i("Nmax", Nmax).i("Mmax", Mmax).i("deg", gm->Degree()).i("ord", gm->Order()).b("meta", meta);
+    r.raw("omit", omit_json(F.omit)).b("deco", F.deco).b("z0", F.zeta0 == 0).b("cm1", F.corrmult == 1).str("desc", gm->Description()).str("date", gm->DateTime()).str("name", gm->GravityModelName()).str("fname", F.name);
     double X, Y, Z; ref.Earth().Forward(lat, lon, h, X, Y, Z);
     LD R = norm3(X, Y, Z), p2 = (LD) X * X + (LD) Y * Y, om2 = (LD) F.omega * F.omega;
     DefOut d = defsum(F.full, nx, mx, (LD) F.amodel, X, Y, Z, cf), dz = defsum(F.full, nx, mx, (LD) F.amodel, X, Y, Z, cfnz);
@@ -536,15 +649,23 @@ static void rec_grv(vt::Rng& g, int maxdeg, int npts) {
     double tX, tY, tZ, Tl = gm->T(X, Y, Z, tX, tY, tZ), T1 = gm->T(X, Y, Z);
     q.i("dT", U(fabsl((LD) T1 - ((LD) Wl - (LD) Ul)), fabsl((LD) Wl) + fabsl((LD) Ul) + sT));
     q.i("dTg", U(norm3((LD) tX - ((LD) gX - uX), (LD) tY - ((LD) gY - uY), (LD) tZ - ((LD) gZ - uZ)), norm3(gX, gY, gZ) + norm3(uX, uY, uZ) + sD));
+    q.str("kf", kfT); q.emit();
+
+    // ---- what every model owes, also where T = W - U is excused (low degree): T and its gradient equal the disturbing series
+    // (model minus normal zonal coefficients up to the model degree, plus the (GMmodel - GMref)/R term); rotation; circle = point
+    Rec zr; head(zr, "grvZ"); zr.i("Nc", Nc);
+    DefOut dt = defsum(F.full, nx, mx, (LD) F.amodel, X, Y, Z, cfT);
+    LD sTz = ka * dt.S0 + fabsl(kdiff) / R + ka * EPS * d.S0, sDz = ka * dt.S1 + fabsl(kdiff) / (R * R);
+    { LD Tz = ka * dt.V + kdiff / R, gzv[3] = {ka * dt.g[0] - kdiff * X / (R * R * R), ka * dt.g[1] - kdiff * Y / (R * R * R), ka * dt.g[2] - kdiff * Z / (R * R * R)};
+      zr.i("dTz", U(fabsl((LD) T1 - Tz), sTz)).i("dTgz", U(norm3((LD) tX - gzv[0], (LD) tY - gzv[1], (LD) tZ - gzv[2]), sDz)); }
     double ex, ey, ez, Td = gm->Disturbance(lat, lon, h, ex, ey, ez);
     LD tw[3] = {tX, tY, tZ}, te[3]; to_enu(Fr, tw, te);
-    q.i("dD", U(norm3(ex - te[0], ey - te[1], ez - te[2]), sD));
+    zr.i("dD", U(norm3(ex - te[0], ey - te[1], ez - te[2]), sD));
     LD sTc = sT + R * sD, sDc = sD + R * (ka * dz.S2 + 2 * fabsl(kdiff) / (R * R * R) + 24 * zn / (R * R));
     double cT = gc.T(lon, cX, cY, cZ), cT1 = gc.T(lon);
-    q.i("cT", U(fabsl((LD) cT - T1), sTc)).i("cT1", U(fabsl((LD) cT1 - T1), sTc)).i("cTg", U(norm3((LD) cX - tX, (LD) cY - tY, (LD) cZ - tZ), sDc));
+    zr.i("cT", U(fabsl((LD) cT - T1), sTc)).i("cT1", U(fabsl((LD) cT1 - T1), sTc)).i("cTg", U(norm3((LD) cX - tX, (LD) cY - tY, (LD) cZ - tZ), sDc));
     double cDT = gc.Disturbance(lon, cX, cY, cZ);
-    q.i("cDT", U(fabsl((LD) cDT - T1), sTc)).i("cD", U(norm3((LD) cX - ex, (LD) cY - ey, (LD) cZ - ez), sDc));
-    q.str("kf", kfT); q.emit();
+    zr.i("cDT", U(fabsl((LD) cDT - T1), sTc)).i("cD", U(norm3((LD) cX - ex, (LD) cY - ey, (LD) cZ - ez), sDc));
 
     // ---- the potential returned together with the gradient equals the potential returned alone
     Rec w; head(w, "grvG");
@@ -573,12 +694,32 @@ static void rec_grv(vt::Rng& g, int maxdeg, int npts) {
     LD sT0 = ka * d0.S0 + fabsl(kdiff) / R0 + ka * EPS * d00.S0 + 2 * zn0, sN = sT0 / gam0 + (LD) F.corrmult * dc.S0;
     LD Nexp = ((LD) T0 - kdiff / R0) / gam0 + (LD) F.corrmult * dc.V;
     n.i("dN", U(fabsl(Ng - Nexp), sN));
+    { DefOut dt0 = defsum(F.full, nx, mx, (LD) F.amodel, X0, Y0, Z0, cfT);      // geoid height from the disturbing series itself (not from the library's T)
+      zr.i("dNz", U(fabsl(Ng - (ka * dt0.V / gam0 + (LD) F.corrmult * dc.V)), (ka * dt0.S0 + ka * EPS * d00.S0) / gam0 + (LD) F.corrmult * dc.S0)); }
     double cDg, cxi, ceta; gc.SphericalAnomaly(lon, cDg, cxi, ceta);
     n.i("cA", max(U(fabsl((LD) cDg - Dg), sDc + 2 * sTc / R), max(U(fabsl((LD) cxi - xi), sDc / gam * deg), U(fabsl((LD) ceta - eta), sDc / gam * deg))));
     double cN = gc.GeoidHeight(lon);
     if (getenv("VDBG")) { char b[600]; snprintf(b, 600, "\"Dg=%.10g xi=%.10g eta=%.10g cDg=%.10g cxi=%.10g ceta=%.10g T1=%.10g Tl=%.10g t=(%g %g %g) gam=%.10g lat=%.17g lon=%.17g h=%.17g file=%s Nmax=%d Mmax=%d\"", Dg, xi, eta, cDg, cxi, ceta, T1, Tl, tX, tY, tZ, (double) gam, lat, lon, h, F.name.c_str(), Nmax, Mmax); n.raw("dbg_", b); }
     n.b("cNnan", std::isnan(cN)).i("cN", h == 0 ? U(fabsl((LD) cN - Ng), sN + R0 * ((ka * d0.S1 + 6 * zn0 / R0) / gam0 + (LD) F.corrmult * dc.S1)) : 0);
     n.str("kf", kfN); n.emit();
+    zr.str("kf", kfZ); zr.emit();
+
+    // ---- a circle created with a capability request: allowed functions agree bit for bit with the circle that has ALL, the others return NaNs
+    { int req = (int) g.range(0, 33); GravityCircle gs = gm->Circle(lat, h, caps_of(req));
+      Rec c; c.str("e", "grvC").i("req", req).b("h0", h == 0).i("caps", gs.Capabilities());
+      auto cmp = [&](const char* fn, int nout, std::function<void(const GravityCircle&, double*)> call) {
+        double a[4] = {FS[0], FS[1], FS[2], FS[3]}, b[4] = {FS[0], FS[1], FS[2], FS[3]}; call(gs, a); call(gc, b);
+        bool eq = true, nan = true; for (int i = 0; i < nout; ++i) { eq = eq && vt::bits(a[i]) == vt::bits(b[i]); nan = nan && std::isnan(a[i]); }
+        c.b((string(fn) + "_eq").c_str(), eq).b((string(fn) + "_nan").c_str(), nan); };
+      cmp("gravity", 4, [&](const GravityCircle& k, double* o) { o[0] = k.Gravity(lon, o[1], o[2], o[3]); });
+      cmp("w", 4, [&](const GravityCircle& k, double* o) { o[0] = k.W(lon, o[1], o[2], o[3]); });
+      cmp("v", 4, [&](const GravityCircle& k, double* o) { o[0] = k.V(lon, o[1], o[2], o[3]); });
+      cmp("disturbance", 4, [&](const GravityCircle& k, double* o) { o[0] = k.Disturbance(lon, o[1], o[2], o[3]); });
+      cmp("tgrad", 4, [&](const GravityCircle& k, double* o) { o[0] = k.T(lon, o[1], o[2], o[3]); });
+      cmp("t", 1, [&](const GravityCircle& k, double* o) { o[0] = k.T(lon); });
+      cmp("anomaly", 3, [&](const GravityCircle& k, double* o) { k.SphericalAnomaly(lon, o[0], o[1], o[2]); });
+      cmp("geoid", 1, [&](const GravityCircle& k, double* o) { o[0] = k.GeoidHeight(lon); });
+      c.str("kf", "none"); c.emit(); }
   }
 }
 
@@ -622,6 +763,28 @@ static void ng_grad(const NGRef& P, LD X, LD Y, LD Z, bool rot, LD g[3]) {
   }
 }
 
+// "A global instantiation of NormalGravity for the WGS84 / GRS80 ellipsoid": the singleton agrees with the object constructed from the
+// documented constants of Constants.hpp (WGS84: a, GM, omega, f; GRS80: a, GM, omega, J2), inspectors and values bit for bit
+static void rec_ngs(vt::Rng& g) {
+  for (int k = 0; k < 2; ++k) {
+    const NormalGravity& s = k == 0 ? NormalGravity::WGS84() : NormalGravity::GRS80();
+    NormalGravity c = k == 0 ? NormalGravity(Constants::WGS84_a(), Constants::WGS84_GM(), Constants::WGS84_omega(), Constants::WGS84_f(), true)
+                             : NormalGravity(Constants::GRS80_a(), Constants::GRS80_GM(), Constants::GRS80_omega(), Constants::GRS80_J2(), false);
+    double lat = asin(g.uni(-1, 1)) * 180 / (double) PI_L, lon = g.uni(-180, 180), h = g.uni(-1e3, 1e6), X, Y, Z; c.Earth().Forward(lat, lon, h, X, Y, Z);
+    double a1[4], a2[4]; a1[0] = s.U(X, Y, Z, a1[1], a1[2], a1[3]); a2[0] = c.U(X, Y, Z, a2[1], a2[2], a2[3]);
+    bool ueq = true; for (int i = 0; i < 4; ++i) ueq = ueq && vt::bits(a1[i]) == vt::bits(a2[i]);
+    Rec r; r.str("e", "ngs").str("which", k == 0 ? "WGS84" : "GRS80")
+      .b("aeq", s.EquatorialRadius() == (k == 0 ? Constants::WGS84_a() : Constants::GRS80_a()))
+      .b("gmeq", s.MassConstant() == (k == 0 ? Constants::WGS84_GM() : Constants::GRS80_GM()))
+      .b("omeq", s.AngularVelocity() == (k == 0 ? Constants::WGS84_omega() : Constants::GRS80_omega()))
+      .b("feq", k == 0 ? s.Flattening() == Constants::WGS84_f() : s.DynamicalFormFactor() == Constants::GRS80_J2())
+      .b("ceq", vt::bits(s.Flattening()) == vt::bits(c.Flattening()) && vt::bits(s.DynamicalFormFactor()) == vt::bits(c.DynamicalFormFactor())
+                && vt::bits(s.SurfacePotential()) == vt::bits(c.SurfacePotential()) && vt::bits(s.EquatorialGravity()) == vt::bits(c.EquatorialGravity())
+                && vt::bits(s.PolarGravity()) == vt::bits(c.PolarGravity()) && vt::bits(s.SurfaceGravity(lat)) == vt::bits(c.SurfaceGravity(lat)))
+      .b("ueq", ueq).str("kf", "none"); r.emit();
+  }
+}
+
 static void rec_ng(vt::Rng& g) {
   double a = g.coin() ? 6378137.0 : g.uni(1, 1e7), GM = g.coin() ? 3986004.418e8 : g.uni(0.1, 10) * 3986004.418e8 * pow(a / 6378137.0, 3);
   double om = g.range(0, 5) == 0 ? 0.0 : 7292115e-11 * g.uni(0, 4);
@@ -630,9 +793,11 @@ static void rec_ng(vt::Rng& g) {
   if (fk == 5) f = 0; if (fk == 6) f = (g.coin() ? 1 : -1) * pow(10.0, -g.uni(3, 12));
   bool viaJ2 = g.range(0, 3) == 0;
   double J2 = NormalGravity::FlatteningToJ2(a, GM, om, f);
-  unique_ptr<NormalGravity> ng, ngf; string res = guarded([&] { ngf.reset(new NormalGravity(a, GM, om, f, true)); ng.reset(viaJ2 ? new NormalGravity(a, GM, om, J2, false) : new NormalGravity(a, GM, om, f, true)); });
+  bool defgeo = !viaJ2 && g.coin();       // "geometricp if true (the default)": argument left out
+  unique_ptr<NormalGravity> ng, ngf; string res = guarded([&] { ngf.reset(new NormalGravity(a, GM, om, f, true));
+    ng.reset(viaJ2 ? new NormalGravity(a, GM, om, J2, false) : defgeo ? new NormalGravity(a, GM, om, f) : new NormalGravity(a, GM, om, f, true)); });
   const char* fcls = f == 0 ? "sphere" : f < 0 ? "prolate" : "oblate";
-  Rec r; r.str("e", "ng").str("out", res).str("fcls", fcls).b("viaJ2", viaJ2).b("om0", om == 0).i("lf", f == 0 ? -99 : (int) floor(log10(fabs(f))));
+  Rec r; r.str("e", "ng").str("out", res).str("fcls", fcls).b("viaJ2", viaJ2).b("defgeo", defgeo).b("om0", om == 0).i("lf", f == 0 ? -99 : (int) floor(log10(fabs(f))));
   if (res != "ok") { r.str("kf", "none"); r.emit(); return; }
   LD fl = ng->Flattening();
   NGRef P; P.a = a; P.b = (LD) a * (1 - (LD) f); P.GM = GM; P.om = om; P.E2 = P.a * P.a * (LD) f * (2 - (LD) f);
@@ -689,10 +854,13 @@ static void rec_ng(vt::Rng& g) {
   // zonal harmonics: V0 = GM/r (1 - sum_n J_n (a/r)^n P_n(sin psi)) far from the ellipsoid
   { LD Rf = fmaxl(P.a, P.b) * (LD) g.uni(3, 10), psi = asinl((LD) g.uni(-1, 1)), Xf = Rf * cosl(psi), Zf = Rf * sinl(psi);
     double wX, wY, wZ, Vf = ng->V0((double) Xf, 0.0, (double) Zf, wX, wY, wZ);
-    LD xx = (double) Xf, zz = (double) Zf, rf = hypotl(xx, zz), t = zz / rf, pm = 1, pc = t, sum = 1, asum = 1, qq = P.a / rf, qn = qq; bool fin = true;
+    // the series starts at n = 0 with the library's J_0 (= -1: V0 -> GM/r); "J_n = 0 if n is odd" is logged as the largest |J_n| over odd n
+    double J0 = ng->DynamicalFormFactor(0); LD jodd = 0; for (int n = 1; n <= 61; n += 2) jodd = fmaxl(jodd, fabsl((LD) ng->DynamicalFormFactor(n)));
+    if (std::isnan(jodd)) jodd = 1;
+    LD xx = (double) Xf, zz = (double) Zf, rf = hypotl(xx, zz), t = zz / rf, pm = 1, pc = t, sum = -(LD) J0, asum = fabsl((LD) J0), qq = P.a / rf, qn = qq; bool fin = std::isfinite(J0);
     for (int n = 2; n <= 60; ++n) { LD pn = ((2 * n - 1) * t * pc - (n - 1) * pm) / n; pm = pc; pc = pn; qn *= qq;
       if (n % 2 == 0) { double jn = ng->DynamicalFormFactor(n); if (!std::isfinite(jn)) fin = false; sum -= jn * qn * pn; asum += fabsl(jn * qn); } }
-    Rec z; z.str("e", "ngz").str("fcls", fcls).b("viaJ2", viaJ2).b("jfin", fin).i("zV", U(fabsl(Vf - P.GM / rf * sum), fabsl(P.GM) / rf * asum + om2 * (LD) a * a * a * a * a / (rf * rf * rf)));
+    Rec z; z.str("e", "ngz").str("fcls", fcls).b("viaJ2", viaJ2).b("jfin", fin).i("j0", U(fabsl((LD) J0 + 1), 1.0L)).i("jodd", U(jodd, 1.0L)).i("zV", U(fabsl(Vf - P.GM / rf * sum), fabsl(P.GM) / rf * asum + om2 * (LD) a * a * a * a * a / (rf * rf * rf)));
     z.str("kf", f == 0 ? "ng-sphere-jn-nan" : "none"); z.emit(); }
   r.str("kf", "none");
   r.emit();
@@ -750,22 +918,28 @@ static void ke(vector<long long>& o, double v) {
   o.push_back((long long) k); o.push_back((long long) nearbyintl((s - k) * 1073741824.0L));
 }
 static const int AX[6][3] = {{1, 0, 0}, {0, 1, 0}, {-1, 0, 0}, {0, -1, 0}, {0, 0, 1}, {0, 0, -1}};
-static void lattice_set(CS& cs, int N, const vector<string>& t, size_t k) {       // c00 c10 c11 s11 c20 c30 c40
-  cs.alloc(N, min(N, 1));
+// a lattice coefficient vector c00 c10 c11 s11 c20 c30 c40 stored with layout degree N and order M; for full normalisation the
+// Schmidt lattice coefficient c of degree n is written as c / sqrt(2n + 1)
+static void lattice_set(CS& cs, int N, int M, const vector<string>& t, size_t k, bool fulln = false) {
+  cs.alloc(N, N < 0 ? -1 : max(0, min(N, M)));
   if (N < 0) return;
-  cs.setc(0, 0, I(t, k)); cs.setc(1, 0, I(t, k + 1)); cs.setc(1, 1, I(t, k + 2)); cs.sets(1, 1, I(t, k + 3));
-  cs.setc(2, 0, I(t, k + 4)); cs.setc(3, 0, I(t, k + 5)); cs.setc(4, 0, I(t, k + 6));
+  auto w = [&](int n, int v) { return fulln ? (double) ((LD) v / sqrtl(2.0L * n + 1)) : (double) v; };
+  cs.setc(0, 0, w(0, I(t, k))); cs.setc(1, 0, w(1, I(t, k + 1))); cs.setc(1, 1, w(1, I(t, k + 2))); cs.sets(1, 1, w(1, I(t, k + 3)));
+  cs.setc(2, 0, w(2, I(t, k + 4))); cs.setc(3, 0, w(3, I(t, k + 5))); cs.setc(4, 0, w(4, I(t, k + 6)));
 }
-// val L ja j pt  then L groups: tau N nmx mmx c[7]
+// val L ja j pt ct norm wn asg  then L groups: tau N nmx mmx c[7]
 static void do_val(const vector<string>& t) {
-  Harm H; H.L = I(t, 1); H.full = false; int ja = I(t, 2), j = I(t, 3), pt = I(t, 4);
+  Harm H; H.L = I(t, 1); int ja = I(t, 2), j = I(t, 3), pt = I(t, 4);
+  const string ct = t.at(5), norm = t.at(6), wn = t.at(7); H.asg = I(t, 8) != 0;
+  H.ct = ct == "simple" ? 1 : 0; H.defnorm = norm == "default"; H.full = norm == "default" || norm == "full";
   H.a = ldexp(1.0, ja); double r = ldexp(H.a, j);
-  Rec q; q.str("e", "val").i("L", H.L).i("ja", ja).i("j", j).i("pt", pt);
+  Rec q; q.str("e", "val").i("L", H.L).i("ja", ja).i("j", j).i("pt", pt).str("ct", ct).str("norm", norm).str("wn", wn).b("asg", H.asg);
   vector<long long> taus, Ns, nxs, mxs; string cs_json = "[";
   for (int l = 0; l < H.L; ++l) {
-    size_t k = 5 + 11 * l;
+    size_t k = 9 + 11 * l;
     H.tau[l] = I(t, k); int N = I(t, k + 1); H.nmx[l] = I(t, k + 2); H.mmx[l] = I(t, k + 3);
-    lattice_set(H.cs[l], N, t, k + 4);
+    // storage: the columns 0..1 that carry lattice coefficients, more if the sum is asked to run further; full triangle for the simple form
+    lattice_set(H.cs[l], N, H.ct == 1 ? N : max(1, H.mmx[l]), t, k + 4, wn == "full");
     taus.push_back(I(t, k)); Ns.push_back(N); nxs.push_back(H.nmx[l]); mxs.push_back(H.mmx[l]);
     cs_json += (l ? ",[" : "["); for (int i = 0; i < 7; ++i) { if (i) cs_json += ","; cs_json += t[k + 4 + i]; } cs_json += "]";
   }
@@ -781,38 +955,164 @@ static void do_val(const vector<string>& t) {
     double V2 = cg(lon, gx, gy, gz); ke(c, V2); ke(c, gx); ke(c, gy); ke(c, gz);
     ke(cn, c0(lon));
   });
-  q.str("out", res).li("d", d).li("v", v).li("cg", c).li("cn", cn); q.emit();
+  if (res != "ok") { d.clear(); c.clear(); v.clear(); cn.clear(); }
+  // known-finding label, a function of the INPUTS only: general form, every set valid on its own, nmx_l <= nmx and mmx_l <= mmx, but a layout degree N_l > N
+  bool lay = H.ct == 0 && H.L > 1;
+  if (lay) { bool gt = false;
+    for (int l = 0; l < H.L; ++l) { int N = (int) Ns[l]; if (!(N >= H.nmx[l] && ((H.nmx[l] >= H.mmx[l] && H.mmx[l] >= 0) || (H.nmx[l] == -1 && H.mmx[l] == -1)))) lay = false;
+      if (l > 0) { if (H.nmx[l] > H.nmx[0] || H.mmx[l] > H.mmx[0]) lay = false; if (Ns[l] > Ns[0]) gt = true; } }
+    lay = lay && gt; }
+  q.str("out", res).li("d", d).li("v", v).li("cg", c).li("cn", cn).str("kf", lay ? "sh-general-layout-n1-gt-n" : "none"); q.emit();
 }
 
-// mag nm nc dt0 tq j pt Nmax Mmax then (nm+1+nc) groups: N M g10 g11 h11 g20 g30
+// lattice metadata: the keywords that are present, as (key, value) tokens; echoed as a JSON object (numbers for the numeric keywords)
+struct LMeta {
+  vector<pair<string, string>> kv;
+  bool has(const string& k) const { for (auto& e : kv) if (e.first == k) return true; return false; }
+  string get(const string& k) const { for (auto& e : kv) if (e.first == k) return e.second; return ""; }
+  static bool numeric(const string& k) { return k == "NumModels" || k == "NumConstants" || k == "DeltaEpoch" || k == "Radius" || k == "ModelRadius" || k == "HeightOffset" || k == "CorrectionMultiplier"; }
+  size_t parse(const vector<string>& t, size_t k) { int n = I(t, k++); for (int i = 0; i < n; ++i) { kv.push_back({t.at(k), t.at(k + 1)}); k += 2; } return k; }
+  string json() const { string o = "{"; for (size_t i = 0; i < kv.size(); ++i) { if (i) o += ","; o += "\"" + kv[i].first + "\":" + (numeric(kv[i].first) ? kv[i].second : "\"" + kv[i].second + "\""); } return o + "}"; }
+  string key() const { string o; for (auto& e : kv) o += e.first + "=" + e.second + ";"; return o; }
+  // the optional lines, exactly as listed (the keys named in skip are written by the caller)
+  void lines(ostream& m, std::initializer_list<const char*> skip) const {
+    for (auto& e : kv) { bool sk = false; for (const char* x : skip) if (e.first == x) sk = true; if (!sk) m << e.first << " " << e.second << "\n"; }
+  }
+};
+
+// mag tq j pt Nmax Mmax wn deco nsets  then nsets groups: N M g10 g11 h11 g20 g30  then nmeta (key value)*
+// the file NAME.wmm contains the required keywords (Radius 4, Epoch 2000, ID), the four advisory limits and the listed keywords
 static map<string, unique_ptr<MagneticModel>> g_mag;
+static map<string, string> g_magname;
 static const int MPT[12][2] = {{0, 0}, {0, 90}, {0, 180}, {0, -90}, {90, 0}, {90, 90}, {90, 180}, {90, -90}, {-90, 0}, {-90, 90}, {-90, 180}, {-90, -90}};
 static void do_mag(const vector<string>& t) {
-  int nm = I(t, 1), nc = I(t, 2), dt0 = I(t, 3), tq = I(t, 4), j = I(t, 5), pt = I(t, 6), Nmax = I(t, 7), Mmax = I(t, 8);
-  int ns = nm + 1 + nc; string key; for (size_t k = 1; k < t.size(); ++k) if (k != 4 && k != 5 && k != 6) key += t[k] + "_";
+  int tq = I(t, 1), j = I(t, 2), pt = I(t, 3), Nmax = I(t, 4), Mmax = I(t, 5); const string wn = t.at(6); bool deco = I(t, 7) != 0; int ns = I(t, 8);
+  LMeta M; M.parse(t, 9 + 7 * (size_t) ns);
+  string key; for (size_t k = 4; k < t.size(); ++k) key += t[k] + "_";
   string sets_json = "[";
   for (int i = 0; i < ns; ++i) { size_t k = 9 + 7 * i; sets_json += (i ? ",[" : "["); for (int u = 0; u < 7; ++u) { if (u) sets_json += ","; sets_json += t[k + u]; } sets_json += "]"; }
   sets_json += "]";
-  Rec q; q.str("e", "mag").i("nm", nm).i("nc", nc).i("dt0", dt0).i("tq", tq).i("j", j).i("pt", pt).i("Nmax", Nmax).i("Mmax", Mmax).raw("sets", sets_json);
+  Rec q; q.str("e", "mag").raw("meta", M.json()).b("deco", deco).raw("sets", sets_json).i("tq", tq).i("j", j).i("pt", pt).i("Nmax", Nmax).i("Mmax", Mmax).str("wn", wn);
   const double a = 4, ae = 8, t0 = 2000;
-  vector<long long> b, c; int deg = -9, ord = -9;
+  vector<long long> b, c; int deg = -9, ord = -9; string desc, date, name, fname;
   string res = guarded([&] {
     auto it = g_mag.find(key);
     if (it == g_mag.end()) {
-      MagFile F; F.name = "lat" + to_string(g_mag.size()); F.full = false; F.a = a; F.t0 = t0; F.dt0 = dt0; F.nm = nm; F.nc = nc; F.tmin = 1990; F.tmax = 2030;
-      for (int i = 0; i < ns; ++i) { size_t k = 9 + 7 * i; CS s; int N = I(t, k), M = I(t, k + 1); s.alloc(N, M);
-        s.setc(1, 0, I(t, k + 2)); s.setc(1, 1, I(t, k + 3)); s.sets(1, 1, I(t, k + 4)); s.setc(2, 0, I(t, k + 5)); s.setc(3, 0, I(t, k + 6)); F.sets.push_back(s); }
-      F.write();
-      it = g_mag.emplace(key, unique_ptr<MagneticModel>(new MagneticModel(F.name, g_dir, Geocentric(ae, 0), Nmax, Mmax))).first;
+      fname = "lat" + to_string(g_mag.size()); g_magname[key] = fname;
+      { std::ostringstream m;
+        m << "WMMF-2\n# lattice magnetic model written by drv_harm\nRadius " << num(a) << "\nEpoch " << num(t0)
+          << "\nMinTime 1990\nMaxTime 2030\nMinHeight -1000\nMaxHeight 600000\nID SYNTHMAG\n";
+        M.lines(m, {"Radius"});
+        ofstream f((g_dir + "/" + fname + ".wmm").c_str()); f << (deco ? decorate(m.str()) : m.str()); }
+      { ofstream cf((g_dir + "/" + fname + ".wmm.cof").c_str(), ios::binary); cf.write("SYNTHMAG", 8);
+        for (int i = 0; i < ns; ++i) { size_t k = 9 + 7 * i; CS s; int N = I(t, k), Mo = I(t, k + 1); s.alloc(N, Mo); bool fn = wn == "full";
+          auto w = [&](int n, int v) { return fn ? (double) ((LD) v / sqrtl(2.0L * n + 1)) : (double) v; };
+          s.setc(1, 0, w(1, I(t, k + 2))); s.setc(1, 1, w(1, I(t, k + 3))); s.sets(1, 1, w(1, I(t, k + 4))); s.setc(2, 0, w(2, I(t, k + 5))); s.setc(3, 0, w(3, I(t, k + 6)));
+          put_set(cf, s); } }
+      it = g_mag.emplace(key, nullptr).first;               // a model that cannot be loaded is remembered as such
+      // "Nmax = -1, Mmax = -1" are the defaults: leave the trailing arguments out whenever they have the default value
+      it->second.reset(Mmax != -1 ? new MagneticModel(fname, g_dir, Geocentric(ae, 0), Nmax, Mmax)
+                       : Nmax != -1 ? new MagneticModel(fname, g_dir, Geocentric(ae, 0), Nmax) : new MagneticModel(fname, g_dir, Geocentric(ae, 0)));
     }
+    fname = g_magname[key];
+    if (!it->second) throw GeographicErr("model could not be loaded");
     const MagneticModel& mm = *it->second; deg = mm.Degree(); ord = mm.Order();
+    desc = mm.Description(); date = mm.DateTime(); name = mm.MagneticModelName();
     double tt = t0 + tq / 4.0, r = ldexp(a, j), lat = MPT[pt - 1][0], lon = MPT[pt - 1][1], h = r - ae;
     double Bx, By, Bz, Bxt, Byt, Bzt; mm(tt, lat, lon, h, Bx, By, Bz, Bxt, Byt, Bzt);
     for (double v : {Bx, By, Bz, Bxt, Byt, Bzt}) ke(b, v);
     MagneticCircle mc = mm.Circle(tt, lat, h); mc(lon, Bx, By, Bz, Bxt, Byt, Bzt);
     for (double v : {Bx, By, Bz, Bxt, Byt, Bzt}) ke(c, v);
   });
-  q.str("out", res).i("deg", deg).i("ord", ord).li("b", b).li("cb", c); q.emit();
+  q.str("out", res).i("deg", deg).i("ord", ord).str("desc", desc).str("date", date).str("name", name).str("fname", fname).li("b", b).li("cb", c); q.emit();
+}
+
+// grv ja jr km kr refkey Nmax Mmax p j req wn deco  N M c[7]  Nc Mc c[7]  nmeta (key value)*
+// gravity model over a non-rotating spherical reference body: ModelRadius 2^ja, ReferenceRadius 2^jr, ModelMass 2^km, ReferenceMass 2^kr,
+// AngularVelocity 0, Flattening 0 | DynamicalFormFactor 0; point MPT[p] at R = 2^(ja + j); circle with the capability request req
+static map<string, unique_ptr<GravityModel>> g_grv;
+static map<string, string> g_grvname;
+static void do_grv(const vector<string>& t) {
+  int ja = I(t, 1), jr = I(t, 2), km = I(t, 3), kr = I(t, 4); const string refkey = t.at(5); int Nmax = I(t, 6), Mmax = I(t, 7), p = I(t, 8), j = I(t, 9), req = I(t, 10);
+  const string wn = t.at(11); bool fn = wn == "full", deco = I(t, 12) != 0;
+  LMeta M; M.parse(t, 31);
+  string key; for (size_t k = 1; k < t.size(); ++k) if (k < 8 || k > 10) key += t[k] + "_";
+  auto setjson = [&](size_t k) { string o = "[" + t[k] + "," + t[k + 1] + ",["; for (int u = 0; u < 7; ++u) { if (u) o += ","; o += t[k + 2 + u]; } return o + "]]"; };
+  Rec q; q.str("e", "grv").raw("meta", M.json()).b("deco", deco).raw("par", "[" + t[1] + "," + t[2] + "," + t[3] + "," + t[4] + "]").str("refkey", refkey)
+    .raw("gs", setjson(13)).raw("cs", setjson(22)).i("Nmax", Nmax).i("Mmax", Mmax).i("p", p).i("j", j).i("req", req).str("wn", wn);
+  vector<long long> pv, pw, pu, pt1, ptg, gg, gd, gn, ga, gx, cv, cw, cg, cd, ct1, ctg, cn, ca, cx; int deg = -9, ord = -9; string desc, date, name, fname;
+  bool insp = false;
+  string res = guarded([&] {
+    auto it = g_grv.find(key);
+    if (it == g_grv.end()) {
+      fname = "glat" + to_string(g_grv.size()); g_grvname[key] = fname;
+      { std::ostringstream m;
+        m << "EGMF-1\n# lattice gravity model written by drv_harm\nModelRadius " << num(ldexp(1.0, ja)) << "\nModelMass " << num(ldexp(1.0, km))
+          << "\nAngularVelocity 0\nReferenceRadius " << num(ldexp(1.0, jr)) << "\nReferenceMass " << num(ldexp(1.0, kr)) << "\n" << refkey << " 0\nID SYNTHGRV\n";
+        M.lines(m, {"ModelRadius"});
+        ofstream f((g_dir + "/" + fname + ".egm").c_str()); f << (deco ? decorate(m.str()) : m.str()); }
+      { ofstream cf((g_dir + "/" + fname + ".egm.cof").c_str(), ios::binary); cf.write("SYNTHGRV", 8);
+        CS a, b; lattice_set(a, I(t, 13), I(t, 14), t, 15, fn); lattice_set(b, I(t, 22), I(t, 23), t, 24, fn); put_set(cf, a); put_set(cf, b); }
+      it = g_grv.emplace(key, nullptr).first;
+      // "Nmax = -1, Mmax = -1" are the defaults: leave the trailing arguments out whenever they have the default value
+      it->second.reset(Mmax != -1 ? new GravityModel(fname, g_dir, Nmax, Mmax) : Nmax != -1 ? new GravityModel(fname, g_dir, Nmax) : new GravityModel(fname, g_dir));
+    }
+    fname = g_grvname[key];
+    if (!it->second) throw GeographicErr("model could not be loaded");
+    const GravityModel& gm = *it->second; deg = gm.Degree(); ord = gm.Order();
+    desc = gm.Description(); date = gm.DateTime(); name = gm.GravityModelName();
+    insp = gm.MassConstant() == ldexp(1.0, km) && gm.ReferenceMassConstant() == ldexp(1.0, kr) && gm.AngularVelocity() == 0 && gm.EquatorialRadius() == ldexp(1.0, jr)
+      && gm.Flattening() == 0 && gm.GravityFile() == g_dir + "/" + fname + ".egm" && gm.GravityModelDirectory() == g_dir;
+    double lat = MPT[p - 1][0], lon = MPT[p - 1][1], R = ldexp(1.0, ja + j), h = R - ldexp(1.0, jr);
+    int ax = p <= 4 ? p - 1 : p <= 8 ? 4 : 5;
+    double X = AX[ax][0] * R, Y = AX[ax][1] * R, Z = AX[ax][2] * R, x, y, z, v;
+    auto four = [&](vector<long long>& o, double a0, double a1, double a2, double a3) { ke(o, a0); ke(o, a1); ke(o, a2); ke(o, a3); };
+    auto reset = [&] { x = FS[1]; y = FS[2]; z = FS[3]; };
+    reset(); v = gm.V(X, Y, Z, x, y, z); four(pv, v, x, y, z);
+    reset(); v = gm.W(X, Y, Z, x, y, z); four(pw, v, x, y, z);
+    reset(); v = gm.U(X, Y, Z, x, y, z); four(pu, v, x, y, z);
+    ke(pt1, gm.T(X, Y, Z));
+    reset(); v = gm.T(X, Y, Z, x, y, z); four(ptg, v, x, y, z);
+    reset(); v = gm.Gravity(lat, lon, h, x, y, z); four(gg, v, x, y, z);
+    reset(); v = gm.Disturbance(lat, lon, h, x, y, z); four(gd, v, x, y, z);
+    ke(gn, gm.GeoidHeight(lat, lon));
+    const LD D2R = PI_L / 180;                       // xi, eta are returned in degrees; logged in radians (- delta / gamma, dyadic here)
+    reset(); gm.SphericalAnomaly(lat, lon, h, x, y, z); ke(ga, x); ke(gx, (double) (y * D2R)); ke(gx, (double) (z * D2R));
+    GravityCircle gc = gm.Circle(lat, h, caps_of(req));
+    reset(); v = gc.V(lon, x, y, z); four(cv, v, x, y, z);
+    reset(); v = gc.W(lon, x, y, z); four(cw, v, x, y, z);
+    reset(); v = gc.Gravity(lon, x, y, z); four(cg, v, x, y, z);
+    reset(); v = gc.Disturbance(lon, x, y, z); four(cd, v, x, y, z);
+    ke(ct1, gc.T(lon));
+    reset(); v = gc.T(lon, x, y, z); four(ctg, v, x, y, z);
+    ke(cn, gc.GeoidHeight(lon));
+    reset(); gc.SphericalAnomaly(lon, x, y, z); ke(ca, x); ke(cx, (double) (y * D2R)); ke(cx, (double) (z * D2R));
+  });
+  q.str("out", res).i("deg", deg).i("ord", ord).str("desc", desc).str("date", date).str("name", name).str("fname", fname).b("insp", insp)
+    .li("pv", pv).li("pw", pw).li("pu", pu).li("pt1", pt1).li("pt", ptg).li("gg", gg).li("gd", gd).li("gn", gn).li("ga", ga).li("gx", gx)
+    .li("cv", cv).li("cw", cw).li("cg", cg).li("cd", cd).li("ct1", ct1).li("ct", ctg).li("cn", cn).li("ca", ca).li("cx", cx); q.emit();
+}
+
+// ngl ja km via n p j : NormalGravity of the non-rotating sphere a = 2^ja, GM = 2^km (via: constructed from J2 = 0 instead of f = 0)
+static void do_ngl(const vector<string>& t) {
+  int ja = I(t, 1), km = I(t, 2); bool via = I(t, 3) != 0; int n = I(t, 4), p = I(t, 5), j = I(t, 6);
+  Rec q; q.str("e", "ngl").i("ja", ja).i("km", km).b("via", via).i("n", n).i("p", p).i("j", j);
+  vector<long long> jn, u, v0, phi, sg, gl, cst; bool jnfin = false;
+  string res = guarded([&] {
+    double a = ldexp(1.0, ja), GM = ldexp(1.0, km);
+    NormalGravity ng(a, GM, 0.0, 0.0, !via);
+    double lat = MPT[p - 1][0], R = ldexp(a, j), h = R - a; int ax = p <= 4 ? p - 1 : p <= 8 ? 4 : 5;
+    double X = AX[ax][0] * R, Y = AX[ax][1] * R, Z = AX[ax][2] * R, x = FS[1], y = FS[2], z = FS[3], v;
+    double J = ng.DynamicalFormFactor(n); jnfin = std::isfinite(J); ke(jn, J);
+    v = ng.U(X, Y, Z, x, y, z); ke(u, v); ke(u, x); ke(u, y); ke(u, z);
+    x = FS[1]; y = FS[2]; z = FS[3]; v = ng.V0(X, Y, Z, x, y, z); ke(v0, v); ke(v0, x); ke(v0, y); ke(v0, z);
+    x = FS[1]; y = FS[2]; v = ng.Phi(X, Y, x, y); ke(phi, v); ke(phi, x); ke(phi, y);
+    ke(sg, ng.SurfaceGravity(lat)); ke(sg, ng.EquatorialGravity()); ke(sg, ng.PolarGravity());
+    y = FS[2]; z = FS[3]; v = ng.Gravity(lat, h, y, z); ke(gl, v); ke(gl, y); ke(gl, z);
+    ke(cst, ng.SurfacePotential()); ke(cst, ng.DynamicalFormFactor()); ke(cst, ng.Flattening()); ke(cst, ng.GravityFlattening());
+    ke(cst, NormalGravity::FlatteningToJ2(a, GM, 0.0, 0.0)); ke(cst, NormalGravity::J2ToFlattening(a, GM, 0.0, 0.0));
+  });
+  q.str("out", res).li("jn", jn).b("jnfin", jnfin).li("u", u).li("v0", v0).li("phi", phi).li("sg", sg).li("gl", gl).li("cst", cst); q.emit();
 }
 
 // cap req h0 : capabilities of GravityCircle; req bits: 1 GRAVITY 2 DISTURBANCE 4 DISTURBING_POTENTIAL 8 SPHERICAL_ANOMALY 16 GEOID_HEIGHT
@@ -824,20 +1124,17 @@ static void do_cap(const vector<string>& t) {
     F.grav.setc(0, 0, 0); F.grav.setc(2, 0, -4.84e-4); F.corr.alloc(2, 2); fill_random(g, F.corr, 0); F.write();
     g_capmodel.reset(new GravityModel("cap", g_dir));
   }
-  unsigned caps = 0;
-  if (req & 1) caps |= GravityModel::GRAVITY; if (req & 2) caps |= GravityModel::DISTURBANCE; if (req & 4) caps |= GravityModel::DISTURBING_POTENTIAL;
-  if (req & 8) caps |= GravityModel::SPHERICAL_ANOMALY; if (req & 16) caps |= GravityModel::GEOID_HEIGHT;
-  if (req == 32) caps = GravityModel::ALL; if (req == 33) caps = GravityModel::NONE;
-  GravityCircle gc = g_capmodel->Circle(33.0, h0 ? 0.0 : 1000.0, caps);
+  GravityCircle gc = g_capmodel->Circle(33.0, h0 ? 0.0 : 1000.0, caps_of(req));
   double x, y, z; auto nn = [](double v) { return std::isnan(v); };
+  auto reset = [&] { x = FS[1]; y = FS[2]; z = FS[3]; };      // an output that a function leaves untouched is finite, i.e. "not NaN"
   Rec q; q.str("e", "cap").i("req", req).b("h0", h0);
-  double v = gc.Gravity(20, x, y, z); q.b("gravity", !(nn(v) || nn(x) || nn(y) || nn(z))).b("gravity_all", nn(v) && nn(x) && nn(y) && nn(z));
-  v = gc.W(20, x, y, z); q.b("w", !(nn(v) || nn(x) || nn(y) || nn(z)));
-  v = gc.V(20, x, y, z); q.b("v", !(nn(v) || nn(x) || nn(y) || nn(z)));
-  v = gc.Disturbance(20, x, y, z); q.b("disturbance", !(nn(v) || nn(x) || nn(y) || nn(z)));
-  v = gc.T(20, x, y, z); q.b("tgrad", !(nn(v) || nn(x) || nn(y) || nn(z)));
+  reset(); double v = gc.Gravity(20, x, y, z); q.b("gravity", !(nn(v) || nn(x) || nn(y) || nn(z))).b("gravity_all", nn(v) && nn(x) && nn(y) && nn(z));
+  reset(); v = gc.W(20, x, y, z); q.b("w", !(nn(v) || nn(x) || nn(y) || nn(z))).b("w_all", nn(v) && nn(x) && nn(y) && nn(z));
+  reset(); v = gc.V(20, x, y, z); q.b("v", !(nn(v) || nn(x) || nn(y) || nn(z))).b("v_all", nn(v) && nn(x) && nn(y) && nn(z));
+  reset(); v = gc.Disturbance(20, x, y, z); q.b("disturbance", !(nn(v) || nn(x) || nn(y) || nn(z))).b("disturbance_all", nn(v) && nn(x) && nn(y) && nn(z));
+  reset(); v = gc.T(20, x, y, z); q.b("tgrad", !(nn(v) || nn(x) || nn(y) || nn(z))).b("tgrad_all", nn(v) && nn(x) && nn(y) && nn(z));
   v = gc.T(20); q.b("t", !nn(v));
-  gc.SphericalAnomaly(20, x, y, z); q.b("anomaly", !(nn(x) || nn(y) || nn(z)));
+  reset(); gc.SphericalAnomaly(20, x, y, z); q.b("anomaly", !(nn(x) || nn(y) || nn(z))).b("anomaly_all", nn(x) && nn(y) && nn(z));
   v = gc.GeoidHeight(20); q.b("geoid", !nn(v));
   q.i("caps", gc.Capabilities()).b("capsall", gc.Capabilities(GravityModel::ALL)); q.emit();
 }
@@ -850,7 +1147,7 @@ static void do_record(uint64_t seed, long long n, int maxdeg) {
     if (k < 5) rec_sh(g, maxdeg);
     else if (k < 7) rec_mag(g, maxdeg / 2 + 2, 3);
     else if (k < 9) rec_grv(g, maxdeg / 2 + 6, 3);
-    else { rec_ng(g); rec_ng(g); }
+    else { rec_ng(g); rec_ng(g); if (it % 80 == 9) rec_ngs(g); }
   }
 }
 
@@ -864,6 +1161,7 @@ int main(int argc, char** argv) {
       auto t = vt::split(line); if (t.empty()) continue;
       if (t[0] == "idx") do_idx(t); else if (t[0] == "co") do_co(t); else if (t[0] == "rd") do_rd(t);
       else if (t[0] == "val") do_val(t); else if (t[0] == "mag") do_mag(t); else if (t[0] == "cap") do_cap(t);
+      else if (t[0] == "grv") do_grv(t); else if (t[0] == "ngl") do_ngl(t);
       else { fprintf(stderr, "unknown vector %s\n", t[0].c_str()); return 2; }
     }
     return 0;
